@@ -52,8 +52,16 @@ Fixpoint strip_prefix (p s : str) : option str :=
   end.
 Definition sp (p : string) (s : str) : option str := strip_prefix (s2l p) s.
 
-(* inside a bracket: isotope? symbol chiral? hcount? charge? ']' *)
-Definition lex_bracket (l : str) : option (atom * str) :=
+(* the text of a bracket atom: everything up to the first ']' *)
+Fixpoint split_at_rb (l : str) : option (str * str) :=
+  match l with
+  | [] => None
+  | c :: r => if Ascii.eqb c "]"%char then Some ([], r)
+              else match split_at_rb r with Some (a, b) => Some (c :: a, b) | None => None end
+  end.
+
+(* inside a bracket: isotope? symbol chiral? hcount? charge?  -- and nothing else *)
+Definition parse_bracket (l : str) : option atom :=
   let (iso, l1) := span_digits l in
   match l1 with
   | c :: l2 =>
@@ -88,13 +96,18 @@ Definition lex_bracket (l : str) : option (atom * str) :=
                       (match d with [] => (-1)%Z | _ => (- Z.of_nat (str2nat d))%Z end, r')
           | None => (0%Z, l5)
           end end end end in
-        match sp "]" l6 with
-        | Some r =>
-            Some (mkAtom sym arom true (match iso with [] => 0 | _ => str2nat iso end) ch h q, r)
-        | None => None
+        match l6 with
+        | [] => Some (mkAtom sym arom true (match iso with [] => 0 | _ => str2nat iso end) ch h q)
+        | _ :: _ => None
         end
       else None
   | [] => None
+  end.
+
+Definition lex_bracket (l : str) : option (atom * str) :=
+  match split_at_rb l with
+  | Some (inside, rest) => match parse_bracket inside with Some a => Some (a, rest) | None => None end
+  | None => None
   end.
 
 Definition bond_of_char (c : ascii) : option bsym :=
